@@ -11,10 +11,12 @@ from ..common import hx, pick, run_cases, sk
 
 ID = "C14"
 LEVEL = "exploration"
-TECHNIQUE = "statistical monitors on observed cell ownership: per-row uniformity and pairwise row independence (chi-square on the joint column table of every pair of rows, columns read off probe sketches), and the documented error bound on Zipf streams (fraction of keys above true + e*N/width must be <= exp(-depth))"
+TECHNIQUE = "statistical monitors on observed cell ownership: per-row uniformity and pairwise row independence (chi-square on the joint column table of every pair of rows, columns read off probe sketches), constructed single-row hash collisions that must stay single-row, and the documented error bound on Zipf streams (fraction of keys above true + e*N/width must be <= exp(-depth))"
 RULE = ("cases: (a) (sketch family, width, depth, 20000 random keys): chi-square(width-1) per row <= limit and chi-square((width-1)^2 "
         "product table) for every pair of rows <= limit (limits at < 1e-12 under the null); (b) (width in {32,64,128}, depth 8, Zipf stream "
-        "of >= 5000 random keys, N = 2*10^5): number of keys with estimate > true + e*N/width <= floor(exp(-8)*V); non-trivial = every "
+        "of >= 5000 random keys, N = 2*10^5): number of keys with estimate > true + e*N/width <= floor(exp(-8)*V); (c) (family, width 32, "
+        "depth 8): for every r < depth, pairs of distinct 16/24-byte keys constructed to have equal 64-bit FastHash under seed r: no pair "
+        "shares all rows, the other rows are shared at rate 1/width, and query(b) == 0 after add(a); non-trivial = every "
         "case (each has >= 2 rows / a heavy key above e*N/width); distinct = by (family, shape, key-set seed)")
 ASSUMPTIONS = ["dependence weaker than the chi-square resolution at 20000 keys is not resolved", "random keys of 1..24 bytes; Zipf exponent ~1.1"]
 LEVEL_TEXT = ("Observes the joint distribution of the d cells owned by random keys for all four kernels that hash per row (linear, log16, log8, "
@@ -103,6 +105,59 @@ def run_zipf(case, ctx, mon):
     mon.nontrivial(heavy >= 1)
 
 
+def run_collide(case, ctx, mon):
+    """Pairs of distinct keys constructed (by inverting the reference FastHash) to have the same full 64-bit hash under one seed
+    r.  If the sketch hashes row r with that seed the pair shares row r; whatever the seeds are, independent rows mean the pair
+    shares each *other* row with probability 1/width only - and never reads each other's counts through all rows at once."""
+    from ..refs import hashes_ref
+
+    fam, w, d, K = case["family"], case["width"], case["depth"], case["pairs"]
+    cfg = {"kind": fam, "width": w, "depth": d}
+    if fam == "hh":
+        cfg["max_key_len"] = 24
+    pr = state.NativeProber(cfg)
+    rng = np.random.default_rng(case["seed"])
+    shared_other = 0
+    shared_r = 0
+    all_shared = 0
+    n_pairs = 0
+    direct = state.make(cfg) if fam != "hh" else None
+    for r in range(d):
+        for _ in range(K):
+            nb = int(pick(rng, [2, 2, 3]))
+            a = bytes(rng.integers(0, 256, 8 * nb, dtype=np.uint8))
+            b0 = bytes(rng.integers(0, 256, 8 * nb, dtype=np.uint8))
+            target = hashes_ref.fasthash64_states(a, r)[-1]
+            b, _ = hashes_ref.fasthash64_steer(b0, r, nb, target)
+            if a == b or hashes_ref.fasthash64(a, r) != hashes_ref.fasthash64(b, r):
+                mon.check(False, "harness:constructed-pair-collides-under-the-reference-hash", a=hx(a), b=hx(b), seed=r)
+            try:
+                ca = pr.cells(a)
+                cb = pr.cells(b)
+            except state.Prober.ProbeAnomaly as exc:
+                mon.check(False, "one-add-owns-one-cell-per-row", error=str(exc), a=hx(a), b=hx(b), cfg=cfg)
+            same = [ca[x] == cb[x] for x in range(d)]
+            shared_r += int(same[r])
+            shared_other += sum(same) - int(same[r])
+            n_pairs += 1
+            if all(same):
+                all_shared += 1
+                mon.check(False, "keys-equal-under-one-row-hash-do-not-share-every-row", a=hx(a), b=hx(b), hash_seed=r, cells_a=list(ca), cells_b=list(cb), cfg=cfg)
+            if direct is not None:
+                direct.add(a, 50)
+                qb = float(direct.query(b))
+                direct.cms[:] = 0
+                direct.n_added_records[:] = 0
+                mon.check(qb == 0.0, "count-of-one-key-not-read-by-a-key-equal-under-one-row-hash", a=hx(a), b=hx(b), hash_seed=r, query_b=qb, cfg=cfg)
+    mean = n_pairs * (d - 1) / w
+    limit = mean + 8 * math.sqrt(mean) + 5
+    mon.check(shared_other <= limit, "pairs-equal-under-one-row-hash-share-other-rows-at-rate-1/width", shared_other_rows=shared_other, limit=limit, pairs=n_pairs, cfg=cfg)
+    mon.count("constructed_collision_pairs", n_pairs)
+    mon.count("constructed_pairs_sharing_the_targeted_row", shared_r)
+    mon.seen("collide_family", fam)
+    mon.nontrivial(shared_r > 0)
+
+
 def gen_cases(ctx):
     rng = ctx.rng("cases")
     q = ctx.quick
@@ -122,6 +177,8 @@ def gen_cases(ctx):
         for j, (w, d) in enumerate(((48, 3), (100, 5), (7, 6), (96, 7))):
             fam = fams[(j + rep) % 4]
             yield {"type": "uniform", "family": fam, "width": w, "depth": min(d, 8), "n_keys": 20000 if w < 64 else 40000, "seed": int(rng.integers(0, 2**62))}
+        for fam in fams:
+            yield {"type": "collide", "family": fam, "width": 32, "depth": 8, "pairs": 12 if q else 40, "seed": int(rng.integers(0, 2**62))}
         for w in (32, 64, 128):
             yield {"type": "zipf", "width": w, "n_keys": 5000, "N": 200000, "seed": int(rng.integers(0, 2**62))}
         rep += 1
@@ -130,7 +187,7 @@ def gen_cases(ctx):
 
 
 def run_case(case, ctx, mon):
-    (run_uniform if case["type"] == "uniform" else run_zipf)(case, ctx, mon)
+    {"uniform": run_uniform, "zipf": run_zipf, "collide": run_collide}[case["type"]](case, ctx, mon)
 
 
 def run(ctx, mon):
@@ -144,5 +201,7 @@ def replay(case, ctx, mon):
 def floors(mon, ctx):
     mon.floor("row pairs of a depth-8 linear sketch", len([x for x in mon.classes["row_pair"] if x.startswith("linear:")]), 28)
     mon.floor("families probed", len(mon.classes["family"]), 4)
+    mon.floor("families probed with constructed one-row collisions", len(mon.classes["collide_family"]), 4)
+    mon.floor("constructed pairs that shared the targeted row", mon.counters["constructed_pairs_sharing_the_targeted_row"], 100)
     mon.floor("zipf widths", len(mon.classes["zipf_width"]), 3)
     mon.floor("zipf heavy keys", mon.counters["zipf_heavy_keys"], 3)
